@@ -3575,15 +3575,16 @@ class SetInstance(object):
             except:
                 for undo_func in reversed(undo_funcs): undo_func()
                 raise
-        if setdata.count is not None:
-            # for one-to-many the reverse side has already removed the items (and adjusted the count)
-            setdata.count -= len(items & setdata)
-        setdata -= items
-        added = setdata.added
-        removed = setdata.removed
-        if added: (items, setdata.added) = (items - added, added - items)
-        if removed: removed |= items
-        else: setdata.removed = items  # removed may be None
+        if reverse.is_collection:
+            setdata -= items
+            if setdata.count is not None: setdata.count -= len(items)
+            added = setdata.added
+            removed = setdata.removed
+            if added: (items, setdata.added) = (items - added, added - items)
+            if removed: removed |= items
+            else: setdata.removed = items  # removed may be None
+        # for one-to-many, Set.reverse_remove() has already updated this collection:
+        # its items, its count and its pending added/removed sets
 
         cache.modified_collections[attr].add(obj)
         cache.modified = True
